@@ -17,6 +17,8 @@ FUNCTIONS = ["FlodymArray.copy_dims", "FlodymArray.copy", "SubArrayHandler.to_fl
 ASSUMPTIONS = ["aliasing itself is a memory fact observed on every explored path (np.shares_memory is recorded next to the probe); the solver contributes the for-all-values / no-hidden-branch part"]
 OUTSIDE = ["operations documented as in-place (inplace=True, set_values, [] assignment targets, compute())", "values arrays handed to a constructor (the property lists the stored dimension set, not the values)"]
 BOUNDS = {"quick": dict(ops="every catalogue operation x every result x every input", dims="a2 b2 c3 t3"), "thorough": dict(ops="as quick", dims="as quick")}
+# few configurations, many code paths per configuration: every one is also run on the unstubbed float64 code (2.5)
+SHADOW_ALWAYS = lambda cfg: True
 OPTS = {"quick": dict(shadow_every=5, max_paths=200, max_depth=800), "thorough": dict(shadow_every=5, max_paths=200, max_depth=800)}
 
 
